@@ -27,6 +27,10 @@ import (
 type pairOp struct {
 	name string
 	fn   func(w *poolWorld, res *[]string)
+	// pure: a pick on the latest picker that is not completed within the tuple. Picks on one picker
+	// are serialised by the picker's own mutex (getAndIncrementSubConnRef), so a tuple of pure picks
+	// must leave the per-channel stream counts of one of its sequential orders.
+	pure bool
 }
 
 type pairState struct {
@@ -36,7 +40,7 @@ type pairState struct {
 }
 
 func pickOp(name, cmd, key, gen string, deadline bool, complete string) pairOp {
-	return pairOp{name: name, fn: func(w *poolWorld, res *[]string) {
+	return pairOp{name: name, pure: complete == "" && gen == "L", fn: func(w *poolWorld, res *[]string) {
 		pub := w.pubFor(gen)
 		if gen == "L" {
 			pub = w.cc.latest()
@@ -167,6 +171,19 @@ func pairStates() []pairState {
 					pickOp("plain", "plain", "", "L", false, "ok"),
 					stateOp("sc1-READY", 1, connectivity.Ready),
 					stateOp("sc0-IDLE", 0, connectivity.Idle),
+				}
+			}},
+		// placement: three READY channels, one call open; picks that stay open
+		{name: "placement", cfg: poolCfg{Name: "pairs placement pool=3", Min: 3, Max: 3, WM: 100,
+			Setup: append(readyPool(3), "pick(bind,,L,g)", "done(0,ok:k1)", "pick(plain,,L,g)")},
+			ops: func(w *poolWorld) []pairOp {
+				return []pairOp{
+					pickOp("plainA", "plain", "", "L", false, ""),
+					pickOp("plainB", "plain", "", "L", false, ""),
+					pickOp("plainC", "plain", "", "L", false, ""),
+					pickOp("unknown-key", "bound", "kX", "L", false, ""),
+					pickOp("bindP", "bind", "", "L", false, ""),
+					pickOp("bound-k1", "bound", "k1", "L", false, ""),
 				}
 			}},
 		// round-robin BIND while the pool can still grow
@@ -340,6 +357,7 @@ func (w *poolWorld) invariants(openCalls int, resolved string, blocked []string)
 
 type pairRun struct {
 	bad     map[string][]string
+	counts  string // per-channel stream counts, sorted
 	keys    string
 	results []string
 	broken  string
@@ -407,6 +425,12 @@ func runTuple(s *vsched.Sched, st pairState, idx []int, concurrent bool) *pairRu
 		}
 		open += w.pairPlaced - w.pairCompleted
 		r.bad, r.keys = w.invariants(open, resolved, blocked)
+		var cnt []int
+		for _, ref := range w.gb.scRefs {
+			cnt = append(cnt, int(ref.streamsCnt))
+		}
+		sort.Ints(cnt)
+		r.counts = fmt.Sprint(cnt)
 	}
 	return r
 }
@@ -450,12 +474,14 @@ func runPairs(c *vsched.RunCtx, race bool) {
 	unit := 0
 	for _, st := range pairStates() {
 		var opNames []string
+		var opPure []bool
 		vsched.Run(vsched.Opts{}, func(s *vsched.Sched) {
 			s.Frozen = true
 			w := newPoolWorld(s, st.cfg)
 			w.pairCalls = append([]*call{}, w.calls...)
 			for _, o := range st.ops(w) {
 				opNames = append(opNames, o.name)
+				opPure = append(opPure, o.pure)
 			}
 		})
 		all := tuples(len(opNames), 2)
@@ -488,6 +514,20 @@ func runPairs(c *vsched.RunCtx, race bool) {
 			}
 			pairName := strings.Join(nm, " || ")
 			cfgName := st.name + ": " + pairName
+			allPure := true
+			for _, i := range idx {
+				if !opPure[i] {
+					allPure = false
+				}
+			}
+			seqCounts := map[string]bool{}
+			var seqCountList []string
+			for _, r := range seq {
+				if !seqCounts[r.counts] {
+					seqCounts[r.counts] = true
+					seqCountList = append(seqCountList, r.counts)
+				}
+			}
 			seqKeys := map[string]bool{}
 			var seqKeyList []string
 			for _, r := range seq {
@@ -527,7 +567,12 @@ func runPairs(c *vsched.RunCtx, race bool) {
 						Sig: fmt.Sprintf("C01.PAIR [pairs %s] %s: set of bound keys matches no sequential order", st.name, pairName),
 						Msg: fmt.Sprintf("bound keys after the overlap: {%s}; after the sequential orders: %s", r.keys, strings.Join(seqKeyList, " "))})
 				}
-				all = append(all, "keys="+r.keys)
+				if allPure && !seqCounts[r.counts] {
+					out.Violations = append(out.Violations, vsched.Violation{Property: "C02", Rule: "C02.PLACE",
+						Sig: fmt.Sprintf("C02.PLACE [pairs %s] %s: overlapping picks on one picker leave stream counts no sequential order gives", st.name, pairName),
+						Msg: fmt.Sprintf("per-channel stream counts after the overlap: %s; after the sequential orders: %s (a pick was placed on a channel that was not least loaded)", r.counts, strings.Join(seqCountList, " "))})
+				}
+				all = append(all, "keys="+r.keys, "counts="+r.counts)
 				out.Outcome = strings.Join(all, " # ")
 				out.StateKey = out.Outcome
 				return out
